@@ -159,9 +159,9 @@ def gen_pipeline(rng, nsteps, invertible=False, same_arity=None, max_dim=4):
 _FRAME_CACHE = {}
 
 
-def frame_obj(name, naxes):
+def frame_obj(name, naxes, order=None):
     """gwcs frame object for a generated frame (fresh each call)"""
-    return cf.CoordinateFrame(naxes=naxes, axes_type=("SPATIAL",) * naxes, axes_order=tuple(range(naxes)), name=name,
+    return cf.CoordinateFrame(naxes=naxes, axes_type=("SPATIAL",) * naxes, axes_order=tuple(order) if order else tuple(range(naxes)), name=name,
                               unit=None)
 
 
